@@ -31,6 +31,7 @@ import (
 	"errors"
 	"fmt"
 	"os"
+	"path/filepath"
 	"regexp"
 	"sort"
 	"strings"
@@ -44,6 +45,7 @@ import (
 	"github.com/cloudflare/pint/internal/checks"
 	"github.com/cloudflare/pint/internal/config"
 	"github.com/cloudflare/pint/internal/discovery"
+	"github.com/cloudflare/pint/internal/git"
 	"github.com/cloudflare/pint/internal/parser"
 	"github.com/cloudflare/pint/verifharness/gen"
 	"github.com/cloudflare/pint/verifharness/lint"
@@ -71,6 +73,14 @@ type FileCase struct {
 	Text string      `json:"text"`
 }
 
+// LinkCase is a symbolic link Name -> Target (both relative to the scratch tree); Target is the name of one of
+// the case's files, or (Dir) of a directory holding some of them.
+type LinkCase struct {
+	Name   string `json:"name"`
+	Target string `json:"target"`
+	Dir    bool   `json:"dir,omitempty"`
+}
+
 type BlockCase struct {
 	Sel    pintcfg.RuleSel `json:"sel"`
 	Marker string          `json:"marker"` // "name" | "for"
@@ -90,6 +100,10 @@ type Case struct {
 	Files  []FileCase  `json:"files"`
 	// Combos are the (command, entry state) pairs the case is evaluated under; empty = all twelve.
 	Combos []Combo `json:"combos,omitempty"`
+	// Links are symbolic links created in the scratch tree next to Files; Args are the paths (relative to the
+	// scratch tree) handed to pint's GlobFinder. Without Args every file of Files is handed over by itself.
+	Links []LinkCase `json:"links,omitempty"`
+	Args  []string   `json:"args,omitempty"`
 	// Bin, when set, makes this a case of the real-binary layer (bin_test.go); the other fields except HCL are unused.
 	Bin   *BinCase `json:"bin,omitempty"`
 	Class string   `json:"class,omitempty"`
@@ -331,6 +345,9 @@ func allCombos() []Combo {
 
 type outcome struct {
 	selected, rejected int
+	viaFileLink        int // verdicts on files found through a file symlink ...
+	linkTargetDiffer   int // ... of which the link's path and the target's path give different answers
+	ambiguousDirLink   int // verdicts not asserted: file below a directory symlink, the two names disagree
 	shared             int // (rule, combo, check definition) evaluations where the definition is carried by >= 2 blocks
 	sharedLaterOnly    int // ... of which the first carrying block does not select the rule but a later one does
 	loadErr            string
@@ -411,65 +428,77 @@ func verifyDecoded(c Case, cfg config.Config) error {
 }
 
 func run(c Case, m bugModel) (out outcome, err error) {
-	files := make([]lint.File, 0, len(c.Files))
-	for _, f := range c.Files {
-		files = append(files, lint.File{Name: f.Name, Content: []byte(f.Text)})
+	d := discover(c)
+	defer os.RemoveAll(d.dir)
+	if d.panic != nil {
+		return out, fmt.Errorf("%w: panic while loading / discovering: %v", errHarness, d.panic)
 	}
-	// Only the marker checks' names are enabled (what `pint --enabled rule/name --enabled rule/for` does):
-	// it leaves the selection of the marker checks untouched and spares pint the
-	// (quadratic) evaluation of every rule block for each of its built-in checks.
-	res := lint.Files(files, lint.Options{ConfigHCL: c.HCL, SkipChecks: true, Enabled: []string{checks.RuleNameCheckName, checks.RuleForCheckName}})
-	if res.Panicked() {
-		return out, fmt.Errorf("%w: panic while loading / discovering (%s): %v", errHarness, res.PanicAt, res.Panic)
+	if d.err != nil {
+		return out, fmt.Errorf("%w: %v", errHarness, d.err)
 	}
-	if res.CfgErr != nil {
-		out.loadErr = res.CfgErr.Error()
+	if d.cfgErr != nil {
+		out.loadErr = d.cfgErr.Error()
 		return out, errSkip
 	}
-	if res.FindErr != nil {
-		return out, fmt.Errorf("%w: finder: %v", errHarness, res.FindErr)
+	if d.findErr != nil {
+		return out, fmt.Errorf("%w: finder: %v", errHarness, d.findErr)
 	}
-	if err := verifyDecoded(c, res.Cfg); err != nil {
+	if err := verifyDecoded(c, d.cfg); err != nil {
 		return out, err
 	}
+	res := struct{ Cfg config.Config }{d.cfg}
 
-	// entries <-> generated rules, by file and order
+	// entries <-> generated rules: by the name the file was found under, then by order
 	type item struct {
 		entry discovery.Entry
 		rd    ruleData
-		path  string
+		path  string   // the name the file was found under
+		alt   []string // other defensible names (files reached through a directory symlink)
+		tpath string   // for a file reached through a file symlink: the link's target (evidence only)
 		where string
 	}
-	var items []item
+	exp, err := expectedNames(c, d.dir)
+	if err != nil {
+		return out, err
+	}
+	type fileRules struct {
+		rds []ruleData
+		wh  []string
+	}
+	perFile := make([]fileRules, len(c.Files))
 	for fi, f := range c.Files {
-		path := res.Paths[fi]
-		var rds []ruleData
-		var wh []string
 		for gi, g := range f.Doc.Groups {
 			for ri, r := range g.Rules {
-				rds = append(rds, ruleData{Alert: r.Alert, Name: r.Name, For: r.For, Keep: r.Keep, Labels: effectiveLabels(g.Labels, r.Labels), Anns: r.Anns})
-				wh = append(wh, fmt.Sprintf("%s group %d rule %d (%s)", f.Name, gi, ri, r.Name))
+				perFile[fi].rds = append(perFile[fi].rds, ruleData{Alert: r.Alert, Name: r.Name, For: r.For, Keep: r.Keep, Labels: effectiveLabels(g.Labels, r.Labels), Anns: r.Anns})
+				perFile[fi].wh = append(perFile[fi].wh, fmt.Sprintf("%s group %d rule %d (%s)", f.Name, gi, ri, r.Name))
 			}
 		}
-		k := 0
-		for _, e := range res.Entries {
-			if e.Path.Name != path {
-				continue
-			}
-			if k >= len(rds) {
-				return out, fmt.Errorf("%w: more entries than generated rules in %s", errHarness, f.Name)
-			}
-			if e.PathError != nil || e.Rule.Error.Err != nil {
-				return out, fmt.Errorf("%w: generated rule does not parse: %v %v", errHarness, e.PathError, e.Rule.Error.Err)
-			}
-			if e.Rule.Name() != rds[k].Name {
-				return out, fmt.Errorf("%w: entry order: %q vs %q", errHarness, e.Rule.Name(), rds[k].Name)
-			}
-			items = append(items, item{entry: e, rd: rds[k], path: path, where: wh[k]})
-			k++
+	}
+	var items []item
+	seenAt := map[string]int{}
+	for _, e := range d.entries {
+		x, ok := exp[e.Path.Name]
+		if !ok {
+			return out, fmt.Errorf("%w: the finder reported a file under a name the harness did not expect: %q (target %q)", errHarness, e.Path.Name, e.Path.SymlinkTarget)
 		}
-		if k != len(rds) {
-			return out, fmt.Errorf("%w: %d entries for %d generated rules in %s", errHarness, k, len(rds), f.Name)
+		if e.PathError != nil || e.Rule.Error.Err != nil {
+			return out, fmt.Errorf("%w: generated rule does not parse: %v %v", errHarness, e.PathError, e.Rule.Error.Err)
+		}
+		fr := perFile[x.file]
+		k := seenAt[e.Path.Name] % len(fr.rds)
+		seenAt[e.Path.Name]++
+		if e.Rule.Name() != fr.rds[k].Name {
+			return out, fmt.Errorf("%w: entry order in %s: %q vs %q", errHarness, e.Path.Name, e.Rule.Name(), fr.rds[k].Name)
+		}
+		where := fr.wh[k]
+		if x.via != "" {
+			where += " found as " + strings.TrimPrefix(e.Path.Name, d.dir+"/") + " (" + x.via + ")"
+		}
+		items = append(items, item{entry: e, rd: fr.rds[k], path: e.Path.Name, alt: x.alt, tpath: x.target, where: where})
+	}
+	for name, x := range exp {
+		if n := seenAt[name]; n == 0 || n%len(perFile[x.file].rds) != 0 {
+			return out, fmt.Errorf("%w: %d entries under %q for %d generated rules", errHarness, n, name, len(perFile[x.file].rds))
 		}
 	}
 
@@ -511,6 +540,32 @@ func run(c Case, m bugModel) (out outcome, err error) {
 				verb := map[bool]string{true: "applied", false: "not applied"}
 				for _, mk := range markerOrder {
 					blocks := carriers[mk]
+					// a file reached through a directory symlink has two defensible names (below the link, below the
+					// link's target): the verdict is only asserted when both give the same answer
+					applies := func(path string) bool {
+						for _, bi := range blocks {
+							if refApplied(c.Blocks[bi].Sel, it.rd, env{path: path, cmd: string(cmd), state: st, altBug: m.altBug}) {
+								return true
+							}
+						}
+						return false
+					}
+					ambiguous := false
+					for _, ap := range it.alt {
+						if applies(ap) != applies(it.path) {
+							ambiguous = true
+						}
+					}
+					if ambiguous {
+						out.ambiguousDirLink++
+						continue
+					}
+					if it.tpath != "" {
+						out.viaFileLink++
+						if applies(it.tpath) != applies(it.path) {
+							out.linkTargetDiffer++
+						}
+					}
 					// a check definition is applied iff at least one block carrying it applies
 					want := false
 					var wantBy []int
@@ -552,6 +607,162 @@ func run(c Case, m bugModel) (out outcome, err error) {
 		}
 	}
 	return out, nil
+}
+
+type discovered struct {
+	dir     string
+	cfg     config.Config
+	entries []discovery.Entry
+	cfgErr  error
+	findErr error
+	err     error
+	panic   any
+}
+
+func scratchDir() (string, error) {
+	base := os.TempDir()
+	if st, err := os.Stat("/dev/shm"); err == nil && st.IsDir() {
+		base = "/dev/shm"
+	}
+	dir, err := os.MkdirTemp(base, "vc09-")
+	if err != nil {
+		return "", err
+	}
+	return filepath.EvalSymlinks(dir)
+}
+
+// discover materialises files and symlinks in a scratch tree, loads the configuration and runs pint's
+// real GlobFinder on the case's arguments.
+func discover(c Case) (d discovered) {
+	d.dir, d.err = scratchDir()
+	if d.err != nil {
+		return d
+	}
+	defer func() {
+		if r := recover(); r != nil {
+			d.panic = r
+		}
+	}()
+	for _, f := range c.Files {
+		p := filepath.Join(d.dir, f.Name)
+		if d.err = os.MkdirAll(filepath.Dir(p), 0o755); d.err != nil {
+			return d
+		}
+		if d.err = os.WriteFile(p, []byte(f.Text), 0o644); d.err != nil {
+			return d
+		}
+	}
+	for _, l := range c.Links {
+		lp, tp := filepath.Join(d.dir, l.Name), filepath.Join(d.dir, l.Target)
+		if d.err = os.MkdirAll(filepath.Dir(lp), 0o755); d.err != nil {
+			return d
+		}
+		rel, err := filepath.Rel(filepath.Dir(lp), tp)
+		if err != nil {
+			d.err = err
+			return d
+		}
+		if d.err = os.Symlink(rel, lp); d.err != nil {
+			return d
+		}
+	}
+	// Only the marker checks' names are enabled (what `pint --enabled rule/name --enabled rule/for` does):
+	// it leaves the selection of the marker checks untouched and spares pint the
+	// (quadratic) evaluation of every rule block for each of its built-in checks.
+	d.cfg, d.cfgErr = lint.LoadConfig(d.dir, c.HCL, lint.Options{Enabled: []string{checks.RuleNameCheckName, checks.RuleForCheckName}})
+	if d.cfgErr != nil {
+		return d
+	}
+	var paths []string
+	if len(c.Args) == 0 {
+		for _, f := range c.Files {
+			paths = append(paths, filepath.Join(d.dir, f.Name))
+		}
+	}
+	for _, a := range c.Args {
+		paths = append(paths, filepath.Join(d.dir, a))
+	}
+	finder := discovery.NewGlobFinder(
+		paths,
+		git.NewPathFilter(
+			config.MustCompileRegexes(d.cfg.Parser.Include...),
+			config.MustCompileRegexes(d.cfg.Parser.Exclude...),
+			config.MustCompileRegexes(d.cfg.Parser.Relaxed...),
+		),
+		parser.PrometheusSchema, model.UTF8Validation, d.cfg.Owners.CompileAllowed(),
+	)
+	d.entries, d.findErr = finder.Find()
+	return d
+}
+
+type expected struct {
+	file   int      // index into Case.Files
+	alt    []string // other defensible names
+	target string   // file symlink: the target's path
+	via    string
+}
+
+func covers(arg, name string) bool {
+	arg = filepath.Clean(arg)
+	return arg == "." || arg == name || strings.HasPrefix(name, arg+"/")
+}
+
+// expectedNames works out, from the case alone, under which names the rule files are found:
+// a regular file under its own path, a file reached through a file symlink under the link's path
+// ("the path of the file being checked"), a file below a directory symlink under the resolved path
+// (what pint's finder reports) with the path below the link as an equally defensible alternative.
+func expectedNames(c Case, dir string) (map[string]*expected, error) {
+	exp := map[string]*expected{}
+	args := c.Args
+	if len(args) == 0 {
+		for _, f := range c.Files {
+			args = append(args, f.Name)
+		}
+	}
+	reach := func(name string) bool {
+		for _, a := range args {
+			if covers(a, name) {
+				return true
+			}
+		}
+		return false
+	}
+	for fi, f := range c.Files {
+		if reach(f.Name) {
+			exp[filepath.Join(dir, f.Name)] = &expected{file: fi}
+		}
+	}
+	for _, l := range c.Links {
+		if !reach(l.Name) {
+			continue
+		}
+		if !l.Dir {
+			fi := -1
+			for i, f := range c.Files {
+				if f.Name == l.Target {
+					fi = i
+				}
+			}
+			if fi < 0 {
+				return nil, fmt.Errorf("%w: link %s points at an unknown file %s", errHarness, l.Name, l.Target)
+			}
+			exp[filepath.Join(dir, l.Name)] = &expected{file: fi, target: filepath.Join(dir, l.Target), via: "file symlink to " + l.Target}
+			continue
+		}
+		for fi, f := range c.Files {
+			if !strings.HasPrefix(f.Name, l.Target+"/") {
+				continue
+			}
+			resolved := filepath.Join(dir, f.Name)
+			below := filepath.Join(dir, l.Name, strings.TrimPrefix(f.Name, l.Target+"/"))
+			if x, ok := exp[resolved]; ok {
+				x.alt = append(x.alt, below)
+			} else {
+				exp[resolved] = &expected{file: fi, alt: []string{below}, via: "directory symlink " + l.Name + " -> " + l.Target}
+			}
+		}
+	}
+	return exp, nil
 }
 
 // isolatedGroup returns a copy of g whose label pairs are private, so that
@@ -751,6 +962,41 @@ func genCase(t *rapid.T, rec *vstat.Recorder, known map[string]string) Case {
 		d := genDoc(t, fmt.Sprintf("f%d", i), noOverride, &nover)
 		c.Files = append(c.Files, FileCase{Name: name, Doc: d, Text: pintcfg.RenderDoc(d)})
 	}
+	// a third of the cases reach one more rule file through a symbolic link
+	if rapid.IntRange(0, 2).Draw(t, "symlink") == 0 {
+		tdir := rapid.SampledFrom([]string{"common", "outside"}).Draw(t, "link.tdir")
+		td := genDoc(t, "ft", noOverride, &nover)
+		target := FileCase{Name: tdir + "/t.yml", Doc: td, Text: pintcfg.RenderDoc(td)}
+		tops := map[string]bool{}
+		var args []string
+		add := func(a string) {
+			if !tops[a] {
+				tops[a] = true
+				args = append(args, a)
+			}
+		}
+		for _, f := range c.Files {
+			add(strings.SplitN(f.Name, "/", 2)[0])
+		}
+		c.Files = append(c.Files, target)
+		var l LinkCase
+		if rapid.IntRange(0, 2).Draw(t, "link.dir") == 0 {
+			l = LinkCase{Name: rapid.SampledFrom([]string{"prod", "rules/sub2", "alerts/linked"}).Draw(t, "link.dname"), Target: tdir, Dir: true}
+		} else {
+			l = LinkCase{Name: rapid.SampledFrom([]string{"prod/alerts.yml", "rules/link.yml", "alerts/l.yaml", "prod/sub/x.yml"}).Draw(t, "link.fname"), Target: target.Name}
+		}
+		c.Links = []LinkCase{l}
+		if !l.Dir && rapid.IntRange(0, 3).Draw(t, "link.asarg") == 0 {
+			add(l.Name) // the link itself is handed to the finder
+		} else {
+			add(strings.SplitN(l.Name, "/", 2)[0])
+		}
+		// the target's own directory is inside the linted tree half of the time ("outside" never is)
+		if tdir == "common" && rapid.Bool().Draw(t, "link.targetInside") {
+			add("common")
+		}
+		c.Args = args
+	}
 	ncomb := rapid.IntRange(2, 4).Draw(t, "ncombos")
 	seenc := map[Combo]bool{}
 	for i := 0; i < ncomb; i++ {
@@ -834,7 +1080,7 @@ func TestPropSelect(t *testing.T) {
 			verdict = "none-selected"
 		}
 		c.Class = class + " " + verdict
-		key := fmt.Sprint(c.Combos) + c.HCL
+		key := fmt.Sprint(c.Combos, c.Links, c.Args) + c.HCL
 		for _, f := range c.Files {
 			key += "\x00" + f.Name + "\x00" + f.Text
 		}
@@ -845,6 +1091,12 @@ func TestPropSelect(t *testing.T) {
 		}
 		rec.Count("verdicts_selected", int64(out.selected))
 		rec.Count("verdicts_rejected", int64(out.rejected))
+		if len(c.Links) > 0 {
+			rec.Count("cases_with_symlink", 1)
+			rec.Count("verdicts_on_files_found_through_a_file_symlink", int64(out.viaFileLink))
+			rec.Count("verdicts_where_link_path_and_target_path_differ", int64(out.linkTargetDiffer))
+			rec.Count("verdicts_not_asserted_directory_symlink_names_disagree", int64(out.ambiguousDirLink))
+		}
 		if out.shared > 0 {
 			rec.Count("cases_with_identical_check_in_several_blocks", 1)
 			rec.Count("verdicts_on_shared_check", int64(out.shared))
